@@ -43,6 +43,17 @@ impl SymbolTable {
         ensures s == sym_define_symbol(*old(self), name@), *final(self) == sym_after_define(*old(self), name@)
     { unimplemented!() }
 }
+pub struct Builtin { pub byte: u8 }
+pub uninterp spec fn builtin_of_name(name: Seq<char>) -> Option<u8>;
+pub mod builtins {
+    use super::*;
+    // PROVED-BY: O14.1n c14_resolve_names (bounded: concrete names), O14.1 (bytes 0..=6)
+    #[verifier::external_body]
+    pub fn resolve(name: &str) -> (r: Option<Builtin>)
+        ensures (r is Some) == (builtin_of_name(name@) is Some), r is Some ==> r->Some_0.byte == builtin_of_name(name@)->Some_0 && r->Some_0.byte <= 6
+    { unimplemented!() }
+}
+
 // R11: std::mem::take on a Vec (no vstd specification): returns the old value and leaves an empty Vec behind
 #[verifier::external_body]
 pub fn mem_take_vec<T>(v: &mut Vec<T>) -> (r: Vec<T>) ensures r@ == old(v)@, final(v)@.len() == 0 { std::mem::take(v) }
